@@ -60,11 +60,18 @@ type childSpec struct {
 	// ApiLimit > 0: the memory limit is NOT in the environment; the child sets it with debug.SetMemoryLimit, the way an
 	// embedding program (or main() after reading a flag) does
 	ApiLimit int64 `json:"api_limit,omitempty"`
+	// AutoState > 0: the child first saves a state of ten arrays of AutoState integers through AutoSave into a fresh
+	// working directory, measures how long AutoLoad of it takes, then runs the program with AutoLoad on and
+	// MaxDuration = DurPct percent of that load time (at least 1 ms).  Bound: load time + MaxDuration + slack.
+	AutoState int `json:"auto_state,omitempty"`
+	DurPct    int `json:"dur_pct,omitempty"`
 }
 
 type childReport struct {
 	WallMs   float64  `json:"wall_ms"`  // duration of EvalStringWithOption
 	ParseMs  float64  `json:"parse_ms"` // duration of a separate parse of the same text (front-end share)
+	LoadMs   float64  `json:"load_ms"`  // AutoState runs: duration of AutoLoad alone
+	DurMs    int      `json:"dur_ms"`   // AutoState runs: the MaxDuration that was used
 	Errs     []string `json:"errs"`
 	ResLen   int      `json:"res_len"`
 	Res      string   `json:"res"` // first 64 bytes of the printed result
@@ -152,6 +159,37 @@ func childMain() {
 	o.MaxDepth = sp.MaxDepth
 	o.MaxDuration = time.Duration(sp.DurMs) * time.Millisecond
 	o.Compact = sp.Compact
+	loadMs := 0.0
+	if sp.AutoState > 0 {
+		dir, err := os.MkdirTemp(".", "autostate")
+		if err != nil || os.Chdir(dir) != nil {
+			fmt.Println("child: cannot create the working directory:", err)
+			os.Exit(3)
+		}
+		so := repl.EvalStringOptions()
+		so.AutoSave = true
+		var b strings.Builder
+		for i := 0; i < 10; i++ {
+			fmt.Fprintf(&b, "sv%d = %d:%d\n", i, i, i+sp.AutoState)
+		}
+		_, serrs, _ := repl.EvalStringWithOption(context.Background(), so, b.String())
+		if st, err := os.Stat(repl.AutoSaveFile); err != nil || st.Size() < int64(sp.AutoState) || len(serrs) > 0 {
+			fmt.Println("child: saving the state failed:", err, serrs)
+			os.Exit(3)
+		}
+		lo := repl.EvalStringOptions()
+		lo.AutoLoad = true
+		tl := time.Now()
+		_, lerrs, _ := repl.EvalStringWithOption(context.Background(), lo, "len(sv9)")
+		loadMs = float64(time.Since(tl).Microseconds()) / 1000
+		if len(lerrs) > 0 {
+			fmt.Println("child: loading the state failed:", lerrs)
+			os.Exit(3)
+		}
+		o.AutoLoad = true
+		sp.DurMs = max(1, int(loadMs*float64(sp.DurPct)/100))
+		o.MaxDuration = time.Duration(sp.DurMs) * time.Millisecond
+	}
 	t0 := time.Now()
 	ctx := context.Background()
 	if sp.CancelMs > 0 {
@@ -164,7 +202,7 @@ func childMain() {
 	res, errs, _ := repl.EvalStringWithOption(ctx, o, src)
 	wall := time.Since(t0)
 	rep := childReport{WallMs: float64(wall.Microseconds()) / 1000, ResLen: len(res), Res: trunc(res, 64), HWMkB: readHWM(),
-		MemLimit: debug.SetMemoryLimit(-1), SrcLen: len(src)}
+		MemLimit: debug.SetMemoryLimit(-1), SrcLen: len(src), LoadMs: loadMs, DurMs: sp.DurMs}
 	for _, e := range errs {
 		if len(e) > 160 {
 			e = e[:160]
@@ -278,6 +316,9 @@ loop:
 	if sp.CancelMs > 0 {
 		res.overrun = res.rep.WallMs - float64(sp.CancelMs)
 	}
+	if sp.AutoState > 0 { // the deadline starts after the saved state is loaded
+		res.overrun = res.rep.WallMs - res.rep.LoadMs - float64(res.rep.DurMs)
+	}
 	return res
 }
 
@@ -320,7 +361,7 @@ var maxOverrun, maxRSSRatio, maxOverrunClean, maxRSSRatioClean float64
 
 // judge one child run; kind is the program family used in signatures
 func judge(c *Ctx, kind string, sp childSpec, r childResult, wantGuard string) {
-	cs := fmt.Sprintf("CHILD depth=%d dur=%dms cancel=%dms mem=%s api=%d compact=%v gen=%s n=%d src=%s", sp.MaxDepth, sp.DurMs, sp.CancelMs, r.memLimit, sp.ApiLimit, sp.Compact, sp.Gen, sp.N, Hx([]byte(trunc(sp.Src, 400))))
+	cs := fmt.Sprintf("CHILD depth=%d dur=%dms cancel=%dms mem=%s api=%d autostate=%d durpct=%d compact=%v gen=%s n=%d src=%s", sp.MaxDepth, sp.DurMs, sp.CancelMs, r.memLimit, sp.ApiLimit, sp.AutoState, sp.DurPct, sp.Compact, sp.Gen, sp.N, Hx([]byte(trunc(sp.Src, 400))))
 	c.Count("child:" + kind)
 	switch {
 	case r.killed:
@@ -835,6 +876,27 @@ func runC09(c *Ctx) {
 		judge(c, p.kind, sp, runChild(c, sp, memLimitStr, 20*time.Second), p.want)
 	}
 
+	// 3c. the EvalStringWithOption entry point with AutoLoad of a large saved state in the working directory: the
+	//     deadline must hold whether MaxDuration is much smaller than, equal to, or slightly larger than the load time
+	for _, p := range []prog{
+		{"autoload-loop", "n=0; for true {n=n+1}", "deadline"},
+		{"autoload-loop-empty", "for true {}", "deadline"},
+		{"autoload-rec", "func f(n){f(n+1)}; f(0)", "depth deadline"},
+	} {
+		pcts := []int{2, 100, 130}
+		if c.Thorough() {
+			pcts = []int{1, 2, 10, 50, 90, 100, 101, 110, 130, 300}
+		}
+		for _, pct := range pcts {
+			sp := childSpec{Src: p.src, MaxDepth: 400, AutoState: 20000, DurPct: pct, ASLimit: asLimit}
+			r := runChild(c, sp, memLimitStr, 20*time.Second)
+			judge(c, p.kind, sp, r, p.want)
+			if r.ok {
+				c.Extra["autoload_ms"] = r.rep.LoadMs
+			}
+		}
+	}
+
 	// 4. child sweep
 	cfgs := []cfg{{10, 1}, {150, 60}, {400, 200}}
 	if c.Thorough() {
@@ -1009,6 +1071,10 @@ func replay(c *Ctx) {
 		switch k {
 		case "depth":
 			sp.MaxDepth, _ = strconv.Atoi(v)
+		case "autostate":
+			sp.AutoState, _ = strconv.Atoi(v)
+		case "durpct":
+			sp.DurPct, _ = strconv.Atoi(v)
 		case "api":
 			sp.ApiLimit, _ = strconv.ParseInt(v, 10, 64)
 		case "cancel":
